@@ -74,6 +74,14 @@ Theorem C16_history_roundtrip : forall old h x, settings_ok (st_tm x) (st_sn x) 
 Proof. exact history_roundtrip. Qed.
 Print Assumptions C16_history_roundtrip.
 
+(* several strategies in one process: client() runs in between are not inputs of graphql_schema() *)
+Theorem C16_process_ignores_clients : forall h old, run_process old h = run_history old (schema_steps h).
+Proof. exact process_ignores_clients. Qed.
+Theorem C16_process_is_last_step : forall old h x h', settings_ok (st_tm x) (st_sn x) = true ->
+  schema_steps h' = [] -> run_process old (h ++ EvSchema x :: h') = Some (fresh_output x).
+Proof. exact process_is_last_step. Qed.
+Print Assumptions C16_process_is_last_step.
+
 (* nothing of the schema is lost in the module *)
 Theorem C16_gen_injective : forall S1 S2 tm sn,
   settings_ok tm sn = true -> wf_gen dv_val S1 = true -> wf_gen dv_val S2 = true ->
